@@ -252,16 +252,18 @@ structure Case where
   item : Option Item           -- `none`: outside the modelled domain
   unmodelledReason : String
   real : Real
+  info : String
   deriving Repr, Inhabited
 
 def dCase : Sx → Option Case
-  | .node "case" [cid, v, a, inp, it, r] => do
+  | .node "case" [cid, v, a, inp, it, r, mt] => do
       let item : Option Item × String ←
         match it with
         | .node "unmodelled" [reason] => some (none, (dText reason).getD "")
         | x => (dItem x).map (fun y => (some y, ""))
       some { id := ← dName cid, variant := ← dVariant v, attr := ← dToks a, input := ← dToks inp,
-             item := item.1, unmodelledReason := item.2, real := ← dReal r }
+             item := item.1, unmodelledReason := item.2, real := ← dReal r,
+             info := (dText mt).getD "" }
   | _ => none
 
 end Entrait.Wire
